@@ -116,7 +116,7 @@ Step ==
             UNCHANGED evars
        ELSE LET r == Rec[l]
                 voc == IF r.ev = "New" THEN Rec[ini].cfgs[r.c + 1] ELSE <<>>
-            IN ENext(r, voc) /\ (Exact(r) \/ (IOEnv.EXPLAIN = "1" /\ Explain(r) /\ FALSE))
+            IN ENext(r, voc) /\ (IF Exact(r) THEN TRUE ELSE (IOEnv.EXPLAIN = "1" /\ Explain(r) /\ FALSE))
     /\ UNCHANGED <<ini, rx>>
 
 TNext == l <= Len(Rec) /\ l' = l + 1 /\ (StartEpisode \/ Step)
